@@ -43,3 +43,17 @@ func (gt *GoTo) Hierarchy() []Symbol {
 func (gt *GoTo) Eval(s *Scope, depth int) Object {
 	return gt
 }
+
+// TagIndex returns the index of the tag in forms, looking from first on, or
+// -1 if forms does not have the tag.
+func (gt *GoTo) TagIndex(forms List, first int) int {
+	for i := first; i < len(forms); i++ {
+		switch forms[i].(type) {
+		case Symbol, Integer, boolean:
+			if forms[i] == gt.Tag {
+				return i
+			}
+		}
+	}
+	return -1
+}
